@@ -4,6 +4,7 @@ package clos
 
 import (
 	"github.com/ohler55/slip"
+	"github.com/ohler55/slip/pkg/generic"
 )
 
 const (
@@ -58,13 +59,22 @@ func init() {
 	defSetSynchronized()
 
 	defConditions()
+	// The standard conditions are part of common-lisp. Registering them
+	// there as well makes them visible, also to the functions that raise
+	// them, in every package that uses common-lisp and not only in
+	// common-lisp-user.
+	for _, c := range slip.UserPkg.AllClasses() {
+		if cc, ok := c.(*ConditionClass); ok {
+			slip.CLPkg.RegisterClass(cc.name, cc)
+		}
+	}
 
 	slip.AddPackage(&Pkg)
 	slip.UserPkg.Use(&Pkg)
 }
 
 func slotMissing(s *slip.Scope, obj slip.Object, name slip.Symbol, op string, depth int) slip.Object {
-	fi := slip.FindFunc("slot-missing")
+	fi := slip.FindFunc("slot-missing", &generic.Pkg)
 	panicFormat := "When attempting to read the slot's value (%s), the slot %s is missing from the object %s."
 	if op == "setf" {
 		panicFormat = "When attempting to set the slot's value (%s), the slot %s is missing from the object %s."
